@@ -7,7 +7,8 @@
 // RTSP / HLS subscribers that come and go, a customize-pub session, GB28181
 // start_rtp_pub sessions with a packet dump, relay pull, the HTTP API (stat,
 // kick, start/stop relay pull, blacklist) and direct ILalServer calls; then the
-// server is disposed.  Data races are printed by the runtime on stderr; an API
+// server is disposed (while the sessions are still being closed; several server lifetimes per run,
+// http-notify posting to a local sink).  Data races are printed by the runtime on stderr; an API
 // call that does not answer within 8 s is reported as STUCK (exit 3).
 //
 // With -tags locktrace (and the build overlay made by gen/c20.py, which turns
@@ -383,6 +384,21 @@ func directWorker(r *rand.Rand, lals logic.ILalServer) {
 	}
 }
 
+// notifySink answers every http-notify post; the notify path (taskQueue, worker goroutine) is then live
+func notifySink() string {
+	l, err := net.Listen("tcp", "127.0.0.1:0")
+	if err != nil {
+		panic(err)
+	}
+	go func() {
+		_ = http.Serve(l, http.HandlerFunc(func(w http.ResponseWriter, r *http.Request) {
+			_, _ = io.Copy(io.Discard, r.Body)
+			w.WriteHeader(http.StatusOK)
+		}))
+	}()
+	return "http://" + l.Addr().String()
+}
+
 func main() {
 	secs := 20
 	if v := os.Getenv("LALRACE_SECONDS"); v != "" {
@@ -392,11 +408,33 @@ func main() {
 	if v := os.Getenv("LALRACE_SEED"); v != "" {
 		fmt.Sscanf(v, "%d", &seed)
 	}
+	cycle := 6
+	if v := os.Getenv("LALRACE_CYCLE_SECONDS"); v != "" {
+		fmt.Sscanf(v, "%d", &cycle)
+	}
 	tmp, err := os.MkdirTemp("", "lalrace")
 	if err != nil {
 		panic(err)
 	}
 	defer os.RemoveAll(tmp)
+	sink := notifySink()
+	// several server lifetimes: each ends with Dispose while the sessions of that lifetime are still
+	// being torn down (their stop notifications are in flight)
+	cycles := 0
+	for left := secs; left > 0; left -= cycle {
+		d := cycle
+		if left < cycle {
+			d = left
+		}
+		runCycle(seed+int64(cycles)*7919, d, tmp, sink)
+		cycles++
+	}
+	dumpLockTrace()
+	fmt.Printf("lalrace: %ds seed=%d server_lifetimes=%d publishes=%d (refused %d) subscriptions=%d api_calls=%d kicks=%d rtp_pub=%d customize_pub=%d\n",
+		secs, seed, cycles, cnt.pub, cnt.pubFail, cnt.sub, cnt.api, cnt.kick, cnt.rtp, cnt.custom)
+}
+
+func runCycle(seed int64, secs int, tmp string, sink string) {
 	rtmpPort, httpPort, rtspPort, apiPort := freePort(), freePort(), freePort(), freePort()
 	conf := fmt.Sprintf(`{
  "conf_version": "v0.4.1",
@@ -412,12 +450,12 @@ func main() {
  "static_relay_pull": {"enable": false, "addr": ""},
  "http_api": {"enable": true, "addr": "127.0.0.1:%d"},
  "server_id": "race",
- "http_notify": {"enable": false},
+ "http_notify": {"enable": true, "update_interval_sec": 1, "on_update": "%[7]s/on_update", "on_pub_start": "%[7]s/on_pub_start", "on_pub_stop": "%[7]s/on_pub_stop", "on_sub_start": "%[7]s/on_sub_start", "on_sub_stop": "%[7]s/on_sub_stop", "on_relay_pull_start": "%[7]s/on_relay_pull_start", "on_relay_pull_stop": "%[7]s/on_relay_pull_stop", "on_rtmp_connect": "%[7]s/on_rtmp_connect", "on_server_start": "%[7]s/on_server_start", "on_hls_make_ts": "%[7]s/on_hls_make_ts"},
  "simple_auth": {"key": "k"},
  "pprof": {"enable": false},
  "log": {"level": 5, "filename": "%s/lal.log", "is_to_stdout": false, "is_rotate_daily": false, "short_file_flag": false, "assert_behavior": 1},
  "debug": {"log_group_interval_sec": 1, "log_group_max_group_num": 10, "log_group_max_sub_num_per_group": 10}
-}`, rtmpPort, httpPort, tmp, rtspPort, apiPort, tmp)
+}`, rtmpPort, httpPort, tmp, rtspPort, apiPort, tmp, sink)
 
 	lals := logic.NewLalServer(func(o *logic.Option) { o.ConfRawContent = []byte(conf) })
 	runDone := make(chan error, 1)
@@ -461,12 +499,8 @@ func main() {
 
 	allDone := make(chan struct{})
 	go func() { wg.Wait(); close(allDone) }()
-	select {
-	case <-allDone:
-	case <-time.After(time.Duration(secs+15) * time.Second):
-		fmt.Printf("lalrace: STUCK workers did not finish %ds after the deadline\n", 15)
-		os.Exit(3)
-	}
+	// shutdown starts at the deadline, while the workers are still closing their sessions
+	time.Sleep(time.Until(end))
 	disposed := make(chan struct{})
 	go func() { lals.Dispose(); close(disposed) }()
 	select {
@@ -476,12 +510,15 @@ func main() {
 		os.Exit(3)
 	}
 	select {
+	case <-allDone:
+	case <-time.After(25 * time.Second):
+		fmt.Printf("lalrace: STUCK workers did not finish %ds after the deadline\n", 25)
+		os.Exit(3)
+	}
+	select {
 	case <-runDone:
 	case <-time.After(10 * time.Second):
 		fmt.Printf("lalrace: STUCK RunLoop did not return within 10s after Dispose\n")
 		os.Exit(3)
 	}
-	dumpLockTrace()
-	fmt.Printf("lalrace: %ds seed=%d publishes=%d (refused %d) subscriptions=%d api_calls=%d kicks=%d rtp_pub=%d customize_pub=%d\n",
-		secs, seed, cnt.pub, cnt.pubFail, cnt.sub, cnt.api, cnt.kick, cnt.rtp, cnt.custom)
 }
